@@ -18,6 +18,7 @@ ASSUMPTIONS = [
     "whether a request sent completely and followed by an abortive reset was still served is observed (execution log) and given to the model as part of the event",
     "exception classes outside Pyro5/errors.py raised by user code are represented by one generic class (ValueError / KeyError)",
     "a tracked resource whose close() raises (11 Exception subclasses tried) counts as closed once: the call is what is counted; BaseException-only classes (SystemExit, KeyboardInterrupt) are not tried",
+    "a raising clientDisconnect hook (11 Exception subclasses) counts as the one hook call; BaseException-only classes are not tried",
     "item streams (generator results) are only opened and left unexhausted; fetching stream items and stream expiry are C10's subject; streams left by earlier cases are cleared from the daemon before a case",
     "which resource a class constructor tracks is told to the registered classes by the harness per request (same process)",
     "worker hand-over interleaving (thread server) is forced from the harness process by wrapping Pool.notify_done / Pool.process (the worker parks right after handing itself back while the next connection is dispatched); other interleavings of the pool bookkeeping are C18's subject",
@@ -183,8 +184,9 @@ def c_case(case, obs):
     I = impl()
     evs = clist([c_event(ev, st) for ev, st in zip(case["events"], obs["steps"])])
     steps = clist([c_step(ev, st) for ev, st in zip(case["events"], obs["steps"])])
-    return "{| k_thread := %s; k_pool := %s; k_events := %s; k_obs := %s |}" % (
-        cbool(case["stype"] == "thread"), cnat(I.POOL), evs, steps)
+    hookfail = clist([cnat(int(c)) for c in sorted(case.get("hookfail") or {}, key=int)])
+    return "{| k_thread := %s; k_pool := %s; k_hookfail := %s; k_events := %s; k_obs := %s |}" % (
+        cbool(case["stype"] == "thread"), cnat(I.POOL), hookfail, evs, steps)
 
 
 # ---------------------------------------------------------------- generator
@@ -252,6 +254,9 @@ def gen_case(rng, stype, timeout, reqlen):
     if timeout and ntimeouts == 0 and alive:
         evs.append(["timeout", rng.choice(alive), rng.choice([0, 1, 6, 40, reqlen - 1])])
     case = {"stype": stype, "timeout": timeout, "events": evs}
+    if rng.random() < 0.35 and nextc:
+        # a Daemon subclass whose clientDisconnect hook raises for some connections
+        case["hookfail"] = {str(c): rng.choice(I.FAULT_CLASSES) for c in rng.sample(range(nextc), rng.randint(1, min(nextc, 3)))}
     if rng.random() < 0.4:
         case["linger"] = 0       # item streams of a connection are dropped when it ends (default: linger 30 s)
     if rng.random() < 0.45:
@@ -308,6 +313,16 @@ def targeted(ctx, reqlen):
             out.append({"stype": stype, "timeout": False, "events": [
                 ["connect", 0, True], ["req", 0, "P", "track", 0], ["end", 0, "close"], ["connect", 1, True],
                 ["req", 1, tgt, "nop", 0, 3], ["connect", 2, True], ["req", 2, "P", "nop", 0], ["end", 1, "reset"]]})
+        # the user's disconnect hook raises for the ending connection (and/or for another one): everything is still released
+        for e in (["end", 0, "close"], ["end", 0, "reset"], ["end", 0, "malformed", "version"], ["end", 0, "badser"],
+                  ["raise", 0, "S", "security"], ["raise", 0, "P", "callback"], ["end", 0, "cut", 11, "P", "nop", 0, "close"]):
+            for hf in ({"0": "ValueError"}, {"0": "OSError", "1": "Custom"}, {"1": "KeyError"}):
+                out.append({"stype": stype, "timeout": False, "hookfail": hf, "events": [
+                    ["connect", 0, True], ["connect", 1, True], ["req", 0, "S", "track", 0, 4], ["req", 0, "P", "track", 1],
+                    ["req", 1, "S", "track", 1], e, ["req", 1, "P", "track", 2], ["end", 1, "close"], ["connect", 2, True],
+                    ["req", 2, "S", "nop", 0]]})
+        out.append({"stype": stype, "timeout": True, "hookfail": {"0": "RuntimeError", "1": "SecurityError"}, "events": [
+            ["connect", 0, True], ["connect", 1, True], ["req", 0, "S", "track", 0], ["req", 1, "P", "track", 1], ["timeout", 0, 7]]})
         # item streams left unexhausted on other connections (and lingering streams of ended ones) while a connection ends
         for linger in (0, 30):
             for e in (["end", 1, "close"], ["end", 1, "malformed", "magic"], ["raise", 1, "P", "security"], ["end", 1, "cut", 7, "P", "nop", 0, "reset"]):
@@ -387,6 +402,8 @@ def execute(ctx, cases, model_ok, res, stop_after=6):
         if case.get("faulty"):
             res.count("faulty_close_resources:%d" % len(case["faulty"]))
         res.count("stream_linger:%s" % case.get("linger", 30))
+        if case.get("hookfail"):
+            res.count("hook_raises_for_connections:%d" % len(case["hookfail"]))
         for ev in case["events"]:
             if ev[0] == "connect" and len(ev) > 3:
                 res.count("event:worker-handover")
